@@ -219,6 +219,7 @@ def run(case):
         for v in vs:
             v["case"] = dict(key=case.get("key"), ir=case["ir"], fmt=[fmt, style, kw])
             v["sig"]["untyped_param"] = untyped
+            v["sig"].update(A.str_default_features(ir))
         viol.extend(vs)
     return dict(outcome="+".join(sorted(outcomes)), transitions=transitions, evaluations=max(n, 1), nontrivial=n, violations=viol)
 
